@@ -50,13 +50,18 @@ impl<R: Read> Read for Base64Decoder<R> {
             return Err(copy_err(err));
         }
 
-        // fill our buffer
-        if self.inner.buf_len() < 4 {
+        // fill our buffer, until there is at least one full quantum to decode
+        // (a source may hand out fewer than 4 bytes per read without being finished)
+        while self.inner.buf_len() < 4 {
             let b = &mut self.inner;
 
-            if let Err(err) = b.read_into_buf() {
-                self.err = Some(copy_err(&err));
-                return Err(err);
+            match b.read_into_buf() {
+                Ok(0) => break,
+                Ok(_) => {}
+                Err(err) => {
+                    self.err = Some(copy_err(&err));
+                    return Err(err);
+                }
             }
         }
 
